@@ -10,7 +10,7 @@ text only under the negative of the type test; (R5) an import selecting nothing 
 as a parameter: the parse loop tests the result's type, not its truth value; (R6) re-rooting writes
 only name/indent/source of the imported copy; (R7) a slice is applied once: it is consumed by the
 slicing routine (or cleared by the caster), so later re-casts do not cut again. NOT decided:
-slicing semantics (numpy), remote file handling."""
+slicing semantics (numpy), remote file handling. Also: cast_value() without an explicit value casts the node's current typed value, the raw text only when there is none."""
 import ast
 
 from ..effects import Program
